@@ -33,6 +33,11 @@ def read_rows(folder: str, immutable: bool = False) -> list[dict]:
     uri = f'file:{path}?mode=ro' + ('&immutable=1' if immutable else '')
     conn = sqlite3.connect(uri, uri=True, timeout=5)
     try:
+        try:
+            conn.execute('SELECT count(*) FROM db_object').fetchall()
+        except sqlite3.OperationalError:
+            conn.close()
+            conn = sqlite3.connect(path, timeout=5)
         cur = conn.execute('SELECT id, hashkey, pack_id, offset, length, compressed, size FROM db_object ORDER BY id')
         rows = [
             {'id': r[0], 'hashkey': r[1], 'pack_id': r[2], 'offset': r[3], 'length': r[4], 'compressed': bool(r[5]),
